@@ -107,6 +107,11 @@ func (t *tracer) run(ctx context.Context) {
 	var termination sync.Once
 	defer close(t.done)
 
+	// cancelled is taken out of the select once it has fired: a done context is ready
+	// forever, and selecting it again and again kept this loop (and a processor) busy
+	// from the cancellation until the last sender was done
+	cancelled := ctx.Done()
+
 	for {
 		select {
 		case sch := <-t.subscription:
@@ -135,7 +140,8 @@ func (t *tracer) run(ctx context.Context) {
 			for _, subscriber := range t.subscribers {
 				subscriber <- trace
 			}
-		case <-ctx.Done():
+		case <-cancelled:
+			cancelled = nil
 			// Start a termination waiting routine (only once)
 			termination.Do(func() {
 				go func() {
